@@ -62,6 +62,10 @@ def lean_type(t) -> str:
         return "PyT.Item"
     if t == "key":
         return "PyT.Key"
+    if t == "millis":  # a float known to hold a whole number of milliseconds, carried as that number (PyT.Millis)
+        return "PyT.Millis"
+    if isinstance(t, tuple) and t[0] == "raw":  # a parameter that stands for a third-party function (calendar, str.isalpha, …)
+        return f"({t[1]})"
     if isinstance(t, tuple) and t[0] == "tuple":
         return "(" + " × ".join(lean_type(x) for x in t[1]) + ")"
     if isinstance(t, tuple) and t[0] == "match":  # groups of a successful regex match
@@ -76,7 +80,7 @@ def lean_type(t) -> str:
 KEYWORDS = {"match", "at", "from", "open", "end", "in", "fun", "do", "then", "else", "if", "let", "have", "show",
             "with", "where", "def", "theorem", "instance", "structure", "class", "namespace", "section", "return",
             "for", "import", "mutual", "universe", "variable", "local", "prefix", "infix", "notation", "macro",
-            "syntax", "deriving", "extends", "Type", "Prop", "Sort", "sorry", "by", "calc", "try", "catch", "finally"}
+            "syntax", "deriving", "extends", "abbrev", "example", "inductive", "private", "protected", "partial", "opaque", "axiom", "lemma", "set_option", "attribute", "export", "using", "unless", "nomatch", "nofun", "Type", "Prop", "Sort", "sorry", "by", "calc", "try", "catch", "finally"}
 
 
 def lname(n: str) -> str:
@@ -132,6 +136,26 @@ class Fn:
         self.tmp += 1
         return f"t{self.tmp}"
 
+    def module_const(self, e):
+        """`NAME` / `Enum.MEMBER` of the module the function lives in whose live value is an int (IntEnum members
+        included, bools not): read from the imported module on every run, emitted as the literal."""
+        if not self.spec.get("module_consts"):
+            return None
+        import importlib
+        g = vars(importlib.import_module(self.spec["module"]))
+        try:
+            if isinstance(e, ast.Name):
+                v = g[e.id]
+            elif isinstance(e, ast.Attribute) and isinstance(e.value, ast.Name):
+                v = getattr(g[e.value.id], e.attr)
+            else:
+                return None
+        except (KeyError, AttributeError):
+            return None
+        if isinstance(v, bool) or not isinstance(v, int):
+            return None
+        return f"({int(v)} : Int)", "int"
+
     # -- expressions ----------------------------------------------------------------------
     def expr(self, e, env, pre: list[str]):
         """returns (lean code, type); monadic sub-computations are hoisted into `pre` as `let x ← …`."""
@@ -152,12 +176,18 @@ class Fn:
             consts = self.spec.get("consts", {})
             if e.id in consts:
                 return consts[e.id]
+            mc = self.module_const(e)
+            if mc is not None:
+                return mc
             raise Unsupported(f"free name {e.id}")
         if isinstance(e, ast.Attribute):
             attrs = self.spec.get("attrs", {})
             src = ast.unparse(e)
             if src in attrs:
                 return attrs[src]
+            mc = self.module_const(e)
+            if mc is not None:
+                return mc
             base, bt = self.expr(e.value, env, pre)
             if bt == "item" and e.attr == "name":
                 return f"{base}.name", "str"
@@ -216,10 +246,22 @@ class Fn:
             c = self.truthy(e.test, env, pre)
             a, at = self.expr(e.body, env, sub1)
             b, bt = self.expr(e.orelse, env, sub2)
-            if sub1 or sub2:
-                raise Unsupported("conditional expression with a branch that can raise")
+            # `x if c else None` / `None if c else x`: an Optional
+            if at == "none" and bt != "none":
+                a, at, b, bt = f"(none : Option {lean_type(bt)})", ("opt", bt), f"(some {b})", ("opt", bt)
+            elif bt == "none" and at != "none":
+                a, at, b, bt = f"(some {a})", ("opt", at), f"(none : Option {lean_type(at)})", ("opt", at)
             if at != bt:
                 raise Unsupported(f"conditional expression of two types {at} / {bt}")
+            if sub1 or sub2:
+                # only the chosen branch is evaluated: a monadic conditional
+                v = self.fresh()
+                pre.append(f"let {v} : {lean_type(at)} ← (if {c} then (do")
+                pre.extend(self.ind(self.ind(sub1 + [f"pure {a}"])))
+                pre.append("  ) else (do")
+                pre.extend(self.ind(self.ind(sub2 + [f"pure {b}"])))
+                pre.append("  ))")
+                return v, at
             return f"(if {c} then {a} else {b})", at
         if isinstance(e, ast.BinOp):
             return self.binop(e, env, pre)
@@ -234,6 +276,12 @@ class Fn:
                 else:
                     raise Unsupported("f-string with format spec")
             return "(" + " ++ ".join(parts or ["([] : Text)"]) + ")", "str"
+        if isinstance(e, ast.List) and len(e.elts) == 1 and isinstance(e.elts[0], ast.Starred):
+            # [*s]: the list of the one-character strings of s
+            c, t = self.expr(e.elts[0].value, env, pre)
+            if t != "str":
+                raise Unsupported("[*x] of " + str(t))
+            return f"(PyT.strIter {c})", ("list", "str")
         if isinstance(e, ast.Subscript) and isinstance(e.value, ast.Call) and isinstance(e.value.func, ast.Name) \
                 and e.value.func.id in ("bin", "oct", "hex") and isinstance(e.slice, ast.Slice) and e.slice.upper is None \
                 and isinstance(e.slice.lower, ast.Constant) and e.slice.lower.value == 2 and e.slice.step is None:
@@ -293,8 +341,21 @@ class Fn:
         raise Unsupported(f"str() of {t}")
 
     def compare(self, op, a, at, b, bt) -> str:
+        if isinstance(op, (ast.Is, ast.IsNot)):
+            if bt == "none" and isinstance(at, tuple) and at[0] == "opt":
+                return f"({a}).isNone" if isinstance(op, ast.Is) else f"({a}).isSome"
+            raise Unsupported("`is` other than `<Optional> is [not] None`")
+        if at == "millis" and bt == "int":
+            b, bt = f"(PyT.Millis.ofInt {b})", "millis"
+        elif at == "int" and bt == "millis":
+            a, at = f"(PyT.Millis.ofInt {a})", "millis"
         if at != bt:
             raise Unsupported(f"comparison of {at} with {bt}")
+        if at == "millis" and not isinstance(op, (ast.Eq, ast.NotEq)):
+            sym = {ast.Lt: "<", ast.LtE: "≤", ast.Gt: ">", ast.GtE: "≥"}.get(type(op))
+            if sym is None:
+                raise Unsupported("comparison operator")
+            return f"(decide ({a}.ms {sym} {b}.ms))"
         if isinstance(op, ast.Eq):
             return f"(decide ({a} = {b}))"
         if isinstance(op, ast.NotEq):
@@ -321,6 +382,8 @@ class Fn:
             return c
         if t == "int":
             return f"(decide ({c} ≠ 0))"
+        if t == "millis":
+            return f"(decide ({c}.ms ≠ 0))"
         if t == "str" or (isinstance(t, tuple) and t[0] == "list"):
             return f"(!({c}).isEmpty)"
         if isinstance(t, tuple) and t[0] == "opt":
@@ -333,6 +396,10 @@ class Fn:
         op = type(e.op)
         if at == "str" and bt == "str" and op is ast.Add:
             return f"({a} ++ {b})", "str"
+        if at == "millis" and bt == "int" and op is ast.Mod:
+            v = self.fresh()
+            pre.append(f"let {v} ← PyT.Millis.mod {a} {b}")
+            return v, "millis"
         if at != "int" or bt != "int":
             raise Unsupported(f"binary {op.__name__} on {at}, {bt}")
         if op in (ast.Add, ast.Sub, ast.Mult):
@@ -349,8 +416,10 @@ class Fn:
         src = ast.unparse(f)
         externs = self.spec.get("externs", {})
         if src in externs:
-            lean_fn, argtypes, rett, monadic = externs[src]
-            args = [self.expr(a, env, pre)[0] for a in e.args]
+            lean_fn, argtypes, rett, monadic, *keep = externs[src]
+            # optional 5th component: the positions of the Python arguments that are passed on (an argument that only
+            # stands for "the value the third-party function is about", e.g. the datetime, is dropped)
+            args = [self.expr(a, env, pre)[0] for i, a in enumerate(e.args) if not keep or i in keep[0]]
             code = f"({lean_fn} " + " ".join(args) + ")" if args else lean_fn
             if monadic:
                 v = self.fresh()
@@ -362,8 +431,17 @@ class Fn:
             if t != ("list", "str"):
                 raise Unsupported("join over " + str(t))
             return (f"(PyT.joinEmpty {c})" if f.value.value == "" else f"(PyT.join {text_lit(f.value.value)} {c})"), "str"
+        if src == "math.floor" and len(e.args) == 1:
+            c, t = self.expr(e.args[0], env, pre)
+            if t != "millis":
+                raise Unsupported("math.floor of " + str(t))
+            return f"(PyT.Millis.floor {c})", "millis"
         if isinstance(f, ast.Attribute):
             base, bt = self.expr(f.value, env, pre)
+            methods = self.spec.get("methods", {})
+            if (bt, f.attr) in methods and not e.args:
+                lean_fn, rett = methods[(bt, f.attr)]
+                return f"({lean_fn} {base})", rett
             if bt == "int" and f.attr == "bit_length" and not e.args:
                 return f"(PyT.bitLength {base})", "int"
             if bt == "str" and f.attr == "rjust" and len(e.args) == 2 and isinstance(e.args[1], ast.Constant) \
@@ -394,6 +472,17 @@ class Fn:
             return f"(PyT.{fn}I {a} {b})", "int"
         if fn == "int" and len(e.args) == 1:
             a = e.args[0]
+            if isinstance(a, ast.Call) and ast.unparse(a.func) in ("ceil", "math.ceil") and len(a.args) == 1 \
+                    and isinstance(a.args[0], ast.BinOp) and isinstance(a.args[0].op, ast.Div) \
+                    and isinstance(a.args[0].right, ast.Constant) and isinstance(a.args[0].right.value, float) \
+                    and a.args[0].right.value == int(a.args[0].right.value):
+                # int(ceil(x / 7.0)) on an int x: ceiling of the true quotient (PyT.ceilDivFloat)
+                x, xt = self.expr(a.args[0].left, env, pre)
+                if xt != "int":
+                    raise Unsupported("int(ceil(a / c)) on non-int")
+                v = self.fresh()
+                pre.append(f"let {v} ← PyT.ceilDivFloat {x} ({int(a.args[0].right.value)} : Int)")
+                return v, "int"
             if isinstance(a, ast.BinOp) and isinstance(a.op, ast.Div):
                 x, xt = self.expr(a.left, env, pre)
                 y, yt = self.expr(a.right, env, pre)
@@ -594,6 +683,21 @@ class Fn:
             env2[var] = env[var][1]
             return [f"match {lname(var)} with", "| none =>"] + self.ind(self.block(s.body, env, None, loop)) + \
                    [f"| some {lname(var)} =>"] + self.ind(cont(env2))
+        # Optional defaulting:  if x is None: x = e   →  let x ← match x with | none => e | some x => x
+        if isinstance(t, ast.Compare) and len(t.ops) == 1 and isinstance(t.ops[0], ast.Is) and isinstance(t.left, ast.Name) \
+                and isinstance(t.comparators[0], ast.Constant) and t.comparators[0].value is None \
+                and isinstance(env.get(t.left.id), tuple) and env[t.left.id][0] == "opt" and not s.orelse \
+                and len(s.body) == 1 and isinstance(s.body[0], ast.Assign) and len(s.body[0].targets) == 1 \
+                and isinstance(s.body[0].targets[0], ast.Name) and s.body[0].targets[0].id == t.left.id:
+            var = t.left.id
+            sub: list[str] = []
+            code, vt = self.expr(s.body[0].value, env, sub)
+            if vt != env[var][1]:
+                raise Unsupported(f"default of type {vt} for an Optional[{env[var][1]}]")
+            env2 = dict(env)
+            env2[var] = vt
+            return [f"let {lname(var)} : {lean_type(vt)} ← (match {lname(var)} with", "  | none => (do"] + \
+                self.ind(self.ind(sub + [f"pure {code}"])) + [f"    )", f"  | some {lname(var)} => pure {lname(var)})"] + cont(env2)
         pre: list[str] = []
         c = self.truthy(s.test, env, pre)
         then_term, else_term = self.terminal(s.body), self.terminal(s.orelse)
@@ -638,7 +742,10 @@ class Fn:
     def loop_common(self, body_nodes, env, extra_bound=()):
         carried = [v for v in self.assigned(body_nodes) if v in env and v not in extra_bound]
         used = self.loads(body_nodes)
-        fixed = [v for v in env if v in used and v not in carried and v not in extra_bound]
+        # parameters that stand for third-party functions are named by the externs / methods of the entry, not by the
+        # Python text: they are always passed on
+        fixed = [v for v in env if (v in used or (isinstance(env[v], tuple) and env[v][0] == "raw"))
+                 and v not in carried and v not in extra_bound]
         return carried, fixed
 
     def loop_result(self, carried, env, has_ret):
@@ -857,6 +964,42 @@ TARGETS = [
     {"group": "NumFmt", "module": "numbers_parser.cell", "qualname": "_twos_complement", "lean": "twos_complement",
      "params": [("value", "int"), ("base", "int")], "ret": "str",
      "assume": "bin/oct/hex(x)[2:] are the base-2/8/16 digits of x >= 0 (lower case), str.upper on them is ASCII upper-casing"},
+    # ---- C14: date directives with arithmetic of their own, the quote scanners, duration units --------------------------
+    {"group": "DateFmt", "module": "numbers_parser.constants", "qualname": "_day_of_year", "lean": "day_of_year",
+     "params": [("yday", "int")], "ret": "int",
+     "attrs": {"value.timetuple().tm_yday": ("yday", "int")},
+     "assume": "value.timetuple().tm_yday is a parameter (the calendar stays CPython's; compared with the model's civil "
+               "arithmetic on every run)"},
+    {"group": "DateFmt", "module": "numbers_parser.constants", "qualname": "_week_of_month", "lean": "week_of_month",
+     "params": [("day", "int"), ("first_weekday", "int")], "ret": "int",
+     "attrs": {"value.day": ("day", "int")},
+     "externs": {"value.replace(day=1).weekday": ("first_weekday", [], "int", False)},
+     "assume": "value.replace(day=1).weekday() is a parameter; int(ceil(x / 7.0)) is the exact ceiling (|x| < 2^50)"},
+    {"group": "DateFmt", "module": "numbers_parser.constants", "qualname": "_days_occurred_in_month",
+     "lean": "days_occurred_in_month", "params": [("day", "int")], "ret": "str",
+     "attrs": {"(value - value.replace(day=1)).days": ("(day - (1 : Int))", "int")},
+     "assume": "(value - value.replace(day=1)).days is value.day - 1 (timedelta between a date-time and the first of its month "
+               "at the same time of day); int(a / 7) is exact"},
+    {"group": "DateFmt", "module": "numbers_parser.cell", "qualname": "_expand_quotes", "lean": "expand_quotes",
+     "params": [("value", "str")], "ret": "str", "fuel": ["chars.length + 1"]},
+    {"group": "DateFmt", "module": "numbers_parser.cell", "qualname": "_decode_date_format", "lean": "decode_date_format",
+     "params": [("isAlpha", ("raw", "Char → Bool")), ("renderFld", ("raw", "Text → Text")), ("date_format", "str")],
+     "ret": "str", "fuel": ["chars.length + 1"],
+     "externs": {"_decode_date_format_field": ("renderFld", ["str"], "str", False, [0])},
+     "methods": {("str", "isalpha"): ("PyT.strIsAlpha isAlpha", "bool")},
+     "assume": "_decode_date_format_field(field, value) for the fixed value is the parameter renderFld (its table is "
+               "Gen.datetimeFieldCodes, compared on every run); str.isalpha of one character is the parameter isAlpha "
+               "(Gen.alphaRanges, generated from the running interpreter)"},
+    {"group": "Duration", "module": "numbers_parser.cell", "qualname": "_unit_format", "lean": "unit_format",
+     "params": [("unit", "str"), ("value", "int"), ("style", "int"), ("abbrev", ("opt", "str"), "none")], "ret": "str",
+     "module_consts": True},
+    {"group": "Duration", "module": "numbers_parser.cell", "qualname": "_auto_units", "lean": "auto_units",
+     "params": [("cell_value", "millis"), ("fmt_largest", "int"), ("fmt_smallest", "int")],
+     "ret": ("tuple", ["int", "int"]), "module_consts": True,
+     "attrs": {"number_format.duration_unit_largest": ("fmt_largest", "int"),
+               "number_format.duration_unit_smallest": ("fmt_smallest", "int")},
+     "assume": "cell_value is the double nearest to a whole number of milliseconds / 1000 (PyT.Millis: comparisons with ints, "
+               "math.floor(x) != x and x % int are exact on such doubles)"},
 ]
 
 
@@ -877,7 +1020,7 @@ def find_def(module: str, qualname: str) -> ast.FunctionDef:
     return node
 
 
-GROUP_IMPORTS = {"A1": ["NumbersModel.Model.A1"], "Items": [], "NumFmt": [], "Addr": []}
+GROUP_IMPORTS = {"A1": ["NumbersModel.Model.A1"], "Items": [], "NumFmt": [], "Addr": [], "DateFmt": [], "Duration": []}
 
 
 def generate(group: str) -> tuple[str, dict]:
